@@ -1,6 +1,7 @@
 """Namespaces for jax / jax.numpy / numpy / itertools / loguru / misc (assumed library contracts)."""
 import z3
 from ..values import *
+from ..values import _ci
 from .. import reduce as R
 from . import arrays as A
 
@@ -162,6 +163,14 @@ def make(interp):
         return t
     def floor(x):
         x = toz3(x); return z3.ToReal(z3.ToInt(x)) if z3.is_real(x) else x
+    def tile(x, reps):
+        xs = interp.iterate(A.from_value(x) if isinstance(x, (list, tuple)) else x); r = concrete_int(reps)
+        if r is None: raise Unsupported("tile with symbolic repetitions")
+        return arr_from_list(list(xs) * r)
+    def repeat1(x, reps, axis=None):
+        if axis is None and not isinstance(x, SArr): return arr_from_list([x] * _ci(reps))
+        raise Unsupported("np.repeat on arrays (bounded-only: Mirjalili event space)")
+    jnp["tile"] = B(tile)
     np = dict(jnp)
     np["log10"] = B(log10); np["floor"] = B(floor)
     def dynamic_slice_in_dim(operand, start_index, slice_size, axis=0):
